@@ -48,7 +48,9 @@ Record cfg := mkCfg {
   g_nointer : fmt -> bool;                   (* the class has a slope but no intercept (SPM Analyze) *)
   g_mixed : bool;                            (* the value arrays of this history have both signs *)
   g_lowdim : bool;                           (* fewer than three axes: MGHImage pads by ArrayProxy.reshape *)
-  g_reshape_ok : bool }.                     (* ArrayProxy.reshape keeps slope and intercept *)
+  g_reshape_ok : bool;                       (* ArrayProxy.reshape keeps slope and intercept *)
+  g_repoint : bool }.                        (* fix 29b7b6ce: after a write onto the file the image's own proxy
+                                                reads, _dataobj becomes the in-memory data and the caches go *)
 
 Definition pinfo_of (g : cfg) (p : nat) : pinfo := nth p (g_paths g) (mkP Nii false).
 Definition fid (g : cfg) (p : nat) : nat := nth p (g_fid g) p.
@@ -237,6 +239,15 @@ Definition written (g : cfg) (tf : fmt) (od : dtype) (v : option nat) (a : nat) 
          end
   else mkK v od a O.
 
+(* proxy_reads_target (os.path.samefile on the proxy's file_like), evaluated by the to_file_map of the image
+   object itself - a class conversion saves a converted copy, which is then the one re-pointed *)
+Definition repoints (g : cfg) (im : image) (tf : fmt) (t : nat) : bool :=
+  g_repoint g && fmt_eqb (i_fmt im) tf
+  && match i_src im with SProxy p _ _ _ => Nat.eqb (fid g p) (fid g t) | SArray _ => false end.
+(* self._dataobj = data; self.uncache() *)
+Definition repointed (im : image) (v : option nat) : image :=
+  mkI (SArray v) (i_fmt im) (i_hdt im) (i_aff im) CNone.
+
 (* [hd]: header dtype used for this save only (SaveU8), else the image's *)
 Definition do_save (g : cfg) (w : world) (s t : nat) (hd : option dtype) : world * out :=
   match img_at w s with
@@ -266,7 +277,8 @@ Definition do_save (g : cfg) (w : world) (s t : nat) (hd : option dtype) : world
                 OSaved t None od (i_aff im) O)
         else
           let c := written g tf od v (i_aff im) in
-          (mkW (upd (fid g t) (Some c) (w_fs w)) (w_imgs w) (w_dead w),
+          (mkW (upd (fid g t) (Some c) (w_fs w))
+               (if repoints g im0 tf t then upd s (Some (repointed im0 v)) (w_imgs w) else w_imgs w) (w_dead w),
            OSaved t (k_val c) od (i_aff im) (k_scl c))
       end
     end
